@@ -131,8 +131,12 @@ fn create_tour(
             (start_idx, route.tour.get(start_idx - 1).unwrap())
         };
 
+        // NOTE the vehicle stays where the previous interval has left it: at the parking place
+        // when the crew walked back to it from the last job of a cluster
+        let last_detail = leg.last_detail.or(Some((start.place.location, start.schedule.departure)));
+
         let mut leg = route.tour.activities_slice(start_idx, end_idx).iter().fold(
-            Leg::new(Some((start.place.location, start.schedule.departure)), Some(start_delivery), leg.statistic),
+            Leg::new(last_detail, Some(start_delivery), leg.statistic),
             |leg, act| {
                 let activity_type = get_activity_type(act).cloned();
                 let (prev_location, prev_departure) = leg.last_detail.unwrap();
